@@ -26,7 +26,8 @@ MANIFEST = dict(
         "from its kink) input derivative and filter/offset gradients at their positions in the gradient vector. "
         "(4) Classifier: argmax returns an index of a maximal entry and the first such (and is characterised by that), with bias the first maximum of "
         "z + bias, a single output is thresholded at 0; max pooling returns the maximum of its patch, attained at the pixel the derivative selects; "
-        "the votes of a voting ensemble sum to 1. "
+        "the votes of a voting ensemble sum to 1; CMAC tile hashing: with all tile numbers below the tile count every accessed parameter position is inside "
+        "the parameter vector and determines (output, tiling, tile numbers) uniquely. "
         "Correspondence (harness/c04.cpp on the real classes vs the same Lean definitions, corpus first): exact comparison on dyadic data for "
         "linear/rectifier layers and chains, Normalizer, Classifier, arg_max, PoolingLayer, KernelExpansion with LinearKernel, CMACMap, Conv2DModel "
         "(linear/rectifier, both paddings, incl. both derivatives); bit-for-bit outputs for tanh/logistic/fast-sigmoid/softmax/normalizer layers, "
@@ -37,7 +38,7 @@ MANIFEST = dict(
   note=TRUST + "PARTIAL. Proved: the items (1)-(4) above about the executable models. Only exercised by the correspondence (no theorem): "
        "the im2mat/gemm/reorder implementation of Conv2DModel (the model is the defining sum over filter taps), the spline taps of ResizeLayer (the derivative "
        "theorem holds for arbitrary taps), voting ensembles' batch = single, KernelExpansion with the Gaussian kernel (theorem is for an arbitrary kernel "
-       "function), CMAC tile index arithmetic (theorem is for an arbitrary index function). Not modelled: sparse inputs, DropoutLayer (random), "
+       "function), the floating-point tile numbers of CMAC (the theorems take the cast `toNat` as an arbitrary function). Not modelled: sparse inputs, DropoutLayer (random), "
        "OpenCL back ends, Padding::RepeatBorder, floating-point rounding. Findings on the real code (modelled as repaired, inputs in corpus/C04, "
        "findings_proposed/C04.md): F-C04-1 Classifier single evaluation ignores the bias, F-C04-2 PoolingLayer input derivative accumulates into "
        "the result object, F-C04-3 voting Ensemble of single-output classifiers writes out of bounds, F-C04-4 Conv2DModel input derivative wrong "
@@ -308,7 +309,7 @@ def run(ctx):
             present.add(fid)
     ctx.cov["findings_present"] = sorted(present)
     r = ctx.rng.fork("c04")
-    per = 200 if ctx.quick else 2000
+    per = 200 if ctx.quick else 8000
     half = per // 2
     p1, p2, p3, p4 = ("F-C04-1" not in present, "F-C04-2" not in present, "F-C04-3" not in present, "F-C04-4" not in present)
     exact_cases = [["mode rat", gen_dense(r, True)] for _ in range(per)] + [["mode rat", gen_concat(r, True)] for _ in range(per)] + \
